@@ -497,6 +497,8 @@ def pvalue_matrices():
         seqs = [rm.ranks_to_text(rm.lcg_ranks(w, 4, 50 * seed + j), False) for j in range(5)]
         out.append(("pipeline-dna-w%d" % w, False, {"create": seqs, "pseudocount": 0.1}))
     out.append(("pipeline-readme", False, {"create": ["GTTGACCTTATCAAC", "GTTGATCCAGTCAAC"], "pseudocount": 0.1}))
+    out.append(("pipeline-readme-background", False, {"create": ["GTTGACCTTATCAAC", "GTTGATCCAGTCAAC"], "pseudocount": 0.1,
+                                                      "background": {"A": 0.125, "C": 0.375, "G": 0.375, "T": 0.125}}))
     seqs = [rm.ranks_to_text(rm.lcg_ranks(3, 20, 90 + j), True) for j in range(6)]
     out.append(("pipeline-protein-w3", True, {"create": seqs, "pseudocount": 0.25}))
     for w in (1, 2, 3, 7):
@@ -523,6 +525,8 @@ def _build_pvalue_matrix(case):
         sm = lightmotif.ScoringMatrix(vals, bg, protein=protein) if bg is not None else lightmotif.ScoringMatrix(vals, protein=protein)
         return sm, rm.background_vector(bg, protein)
     m = lightmotif.create(list(case["create"]), protein=protein)
+    if case.get("background") is not None:
+        return m.counts.normalize(case["pseudocount"]).log_odds(case["background"]), rm.background_vector(case["background"], protein)
     return m.counts.normalize(case["pseudocount"]).log_odds(), rm.uniform_background(protein)
 
 
@@ -555,6 +559,12 @@ def check_pvalue(rep, case):
         if is_exc(ref):
             rep.machinery("core %s/%s failed on %s: %s" % (what, method, case["label"], show(ref)))
             continue
+        if got != ("ok", ref[1]) and "create" in case and case.get("background") is not None:
+            uni = call(core[(what, method)], rows, rm.uniform_background(protein), protein, x)
+            if uni[0] == "ok" and got == ("ok", uni[1]):
+                _viol(rep, "C17 log_odds background ignored", "%s: matrix built by log_odds(background=%r): %s(%r, %r) = %r is the uniform-background value, "
+                      "the core library under the given background gives %r" % (case["label"], case["background"], what, x, method, uni[1], ref[1]), dict(case, query=[what, x]))
+                continue
         if got != ("ok", ref[1]):
             _viol(rep, "C17 %s method=%s differs from core" % (what, method), "%s: %s(%r, %r) %s, the core library gives %r (call order %s)" % (
                 case["label"], what, x, method, show(got), ref[1], order), dict(case, query=[what, x]))
@@ -562,8 +572,8 @@ def check_pvalue(rep, case):
 
 
 def run_pvalue(ctx, rep):
-    rep.space("pvalue", "ScoringMatrix.pvalue(score, method) / .score(pvalue, method) for method in {meme, tfmpvalue}: 18 matrices (create->normalize->log_odds "
-              "DNA widths 3/7/15 + README motif + protein width 3; ScoringMatrix(values, background) DNA widths 1/2/3/7 x 3 backgrounds, protein width 2) x 9 scores "
+    rep.space("pvalue", "ScoringMatrix.pvalue(score, method) / .score(pvalue, method) for method in {meme, tfmpvalue}: 19 matrices (create->normalize->log_odds "
+              "DNA widths 3/7/15 + README motif with uniform and with a given background + protein width 3; ScoringMatrix(values, background) DNA widths 1/2/3/7 x 3 backgrounds, protein width 2) x 9 scores "
               "(below min .. above max, 0) + 9 p-values in (0,1), asked on ONE object in forward and in reverse order (cached distribution) and on fresh objects; "
               "oracle = the core library on the same f32 rows and background (bit-identical results demanded); one evaluation = one query")
     for i, case in enumerate(pvalue_cases(ctx)):
